@@ -93,6 +93,8 @@ func (v Value) Go() (interface{}, error) {
 		return v.Str, nil
 	case v.Kind == KBool:
 		return v.Bool, nil
+	case v.Kind == KNil:
+		return nil, nil
 	case v.Kind == KSlice:
 		et, err := ElemType(v.Elem)
 		if err != nil {
@@ -110,6 +112,12 @@ func (v Value) Go() (interface{}, error) {
 			g, err := it.Go()
 			if err != nil {
 				return nil, err
+			}
+			if it.Kind == KNil {
+				if et.Kind() != reflect.Interface {
+					return nil, fmt.Errorf("nil element in a slice of %s", et)
+				}
+				continue // the element stays the nil interface
 			}
 			gv := reflect.ValueOf(g)
 			if !gv.Type().AssignableTo(et) {
@@ -152,6 +160,8 @@ func ValueEqual(a, b Value) bool {
 		return a.Str == b.Str
 	case a.Kind == KBool:
 		return a.Bool == b.Bool
+	case a.Kind == KNil:
+		return true
 	case a.Kind == KSlice:
 		if len(a.Items) != len(b.Items) {
 			return false
@@ -287,7 +297,7 @@ func ValueInDomain(v Value) string {
 		if new(big.Rat).Abs(r).Cmp(new(big.Rat).SetInt64(Limit)) > 0 {
 			return "beyond-safe-integer-range"
 		}
-	case v.Kind == KString, v.Kind == KBool:
+	case v.Kind == KString, v.Kind == KBool, v.Kind == KNil:
 	case v.Kind == KSlice:
 		if v.Elem == "uint8" {
 			return "[]uint8-is-[]byte" // Go's byte string: the library maps it to string/byte by design (type.go:63)
